@@ -14,7 +14,7 @@ THEOREMS = ["OdeVerif.C03.verdict_perm_invariant", "OdeVerif.C06.classify_rename
             "OdeVerif.Refine.fromShapesRows_unit_rows", "OdeVerif.Refine.fromShapesRows_top_row"]
 LEVEL = "proof"
 
-RENAME_POOL = ["alpha_1", "bb", "Q", "zeta", "k9", "m_x", "rho", "sig"]
+RENAME_POOL = ["alpha_1", "bb", "Q", "zeta", "k9", "m_x", "rho", "sig", "V_d", "I_dend", "x_", "yd", "w_d_", "u_dd"]      # incl. names ending in the marker's letters
 FORMULATIONS = [
     # (function-of-time form, ODE form, chain form) of the same homogeneous linear shape
     {"name": "g", "function": "g = exp(-t/tau)", "ode": {"expression": "g' = -g/tau", "initial_value": "1"},
@@ -98,10 +98,18 @@ def gen_cases(ctx, n):
         else:
             names = sorted({d["expression"].split("=")[0].strip().replace("'", "") for d in ind["dynamics"]})
             params = sorted(p for p in systems.PARAMS if re.search(r"(?<![A-Za-z0-9_])%s(?![A-Za-z0-9_])" % p, json.dumps(ind)))
-            pool_ = rng.sample(RENAME_POOL, len(RENAME_POOL))
+            text_ids = set(re.findall(r"[A-Za-z_][A-Za-z0-9_]*", json.dumps(ind)))
+            pool_ = [q for q in rng.sample(RENAME_POOL, len(RENAME_POOL)) if q not in text_ids]      # new names must be fresh
             mapping = {}
+            if len(names) >= 2 and rng.random() < 0.35:
+                # two variables whose new names differ only by trailing characters of the derivative marker's alphabet
+                pa, pb = rng.choice(systems.AWKWARD_PAIRS)
+                if pa not in text_ids and pb not in text_ids:
+                    two = rng.sample(names, 2)
+                    mapping[two[0]], mapping[two[1]] = pa, pb
+                    pool_ = [q for q in pool_ if q not in (pa, pb)]
             for nm in names + params:
-                if rng.random() < 0.8 and pool_:
+                if nm not in mapping and rng.random() < 0.8 and pool_:
                     mapping[nm] = pool_.pop()
             twin = rename_all(ind, mapping)
             vm = {}
